@@ -327,6 +327,7 @@ def scenarios(res, n_dirs):
                 h.queries("base")
                 h.call(["set_rules_dir", d], "during-call")
                 h.queries("during")
+                h.take_log()           # the calls so far saw the broken copy
                 h.broken_after = dict(h.broken)
                 h.broken = {}          # the good directory has no fault
                 h.call(["set_rules_dir", C.RULES])
@@ -372,6 +373,7 @@ def scenarios(res, n_dirs):
         h.fault(relpath, kind)
         h.call(pref, "during-call")
         h.queries("during")
+        h.take_log()                           # the calls so far saw the fault
         h.broken, keep = {}, h.broken          # back to the configuration the fault does not reach
         h.call(back)
         h.queries("final")
